@@ -379,6 +379,7 @@ func runC20(c *h.Ctx, idx int, events bool) {
 	var history []map[string]interface{}
 	nops := r.Range(3, 6)
 	served := 0
+	refTotal, runTotal, forbiddenEver := map[string]int{}, map[string]int{}, map[string]bool{}
 	// structured histories (every second case whose subscription allows it)
 	quietOp, loudOp := "", ""
 	switch {
@@ -487,7 +488,11 @@ func runC20(c *h.Ctx, idx int, events bool) {
 			total += n
 		}
 		// the watcher dequeues one event per second
-		waitFor(time.Duration(len(evs)+3)*1200*time.Millisecond, func() bool {
+		wd := time.Duration(len(evs)+3)*1200*time.Millisecond + 15*time.Second
+		if len(want) == 0 {
+			wd = 0 // nothing expected: the fixed pause below gives an unexpected run the time to show up
+		}
+		waitFor(wd, func() bool {
 			seenKeys := map[string]bool{}
 			for _, l := range runLines()[before:] {
 				seenKeys[l] = true
@@ -515,15 +520,22 @@ func runC20(c *h.Ctx, idx int, events bool) {
 		for _, l := range after {
 			gotCount[l]++
 		}
-		afterDead := dead[target] // once the path itself is gone, later behaviour on it is not determined; the op's own events are
-		_ = afterDead
+		// cumulative accounting: a second run for an operation with two events (truncate-write) may arrive while
+		// the next operation is already under way, so runs are matched against all reference events so far
+		for l, n := range want {
+			refTotal[l] += n
+		}
+		for l := range forbidden {
+			forbiddenEver[l] = true
+		}
 		for l, n := range gotCount {
-			if forbidden[l] {
+			runTotal[l] += n
+			if forbiddenEver[l] && refTotal[l] == 0 {
 				c.Violate("events/ran-for-unsubscribed-event", fmt.Sprintf("after %s %s the task ran %dx with %s, but that event type is not subscribed (%v)", op.Kind, op.Path, n, l, subs), cas)
-			} else if want[l] == 0 {
-				c.Violate("events/ran-for-unobserved-path-or-event", fmt.Sprintf("after %s %s the task ran with %s; the reference observer saw %v", op.Kind, op.Path, l, evs), cas)
-			} else if n > want[l] {
-				c.Violate("events/ran-more-often-than-events", fmt.Sprintf("after %s %s the task ran %dx with %s for %d events", op.Kind, op.Path, n, l, want[l]), cas)
+			} else if refTotal[l] == 0 {
+				c.Violate("events/ran-for-unobserved-path-or-event", fmt.Sprintf("after %s %s the task ran with %s; the reference observer never saw such an event (this operation: %v)", op.Kind, op.Path, l, evs), cas)
+			} else if runTotal[l] > refTotal[l] {
+				c.Violate("events/ran-more-often-than-events", fmt.Sprintf("after %s %s the task has run %dx with %s for %d events in total", op.Kind, op.Path, runTotal[l], l, refTotal[l]), cas)
 			}
 		}
 		for l := range want {
